@@ -10,7 +10,6 @@
   token; this enters only through `WriteOK` (each ordinate text is "null" or a number token).
 -/
 import GeoProofs.WriteLemmas
-import GeoProofs.DispatchFacts
 
 namespace Geo
 
